@@ -227,6 +227,10 @@ func oracleChan(c Case, idx int, res *lib.Result) {
 				bad(i, "chanmap-nil-map", fmt.Sprintf("a nil child map is stored under parent %q (the next Add for it panics)", p))
 				return
 			}
+			if len(m) == 0 {
+				bad(i, "chanmap-empty-parent-kept", fmt.Sprintf("parent %q has no child left but keeps its (empty) map: one entry per past booking for ever", p))
+				return
+			}
 			for k := range m {
 				if s.ParentByChild[k] != p {
 					bad(i, "chanmap-inconsistent", fmt.Sprintf("child %q is in the map of parent %q but ParentByChild says %q", k, p, s.ParentByChild[k]))
